@@ -89,7 +89,7 @@ func (w *W) c02Judge(st *c01State, g string, doc []byte) {
 		w.Count("docs_async_path", 1)
 	}
 	used := 0
-	for ci, cfg := range w.configs() {
+	for ci, cfg := range w.configsAlt(st.n) {
 		fresh := (st.n+ci)%64 == 0
 		pj, err, pan := w.parseGuarded(doc, cfg, false, fresh)
 		if pan != nil {
